@@ -16,7 +16,7 @@ META = {
     "note": "Trusted: TLC, Go toolchain, crypto/x509 and crypto/ed25519 for certificate creation and concretisation checks, the accessor file verif_graph.go (the judged graph is the real graph as observed through it). Goroutine interleavings of the real WalkChainsAsync are exercised by pacing only (consumer eager/lazy), not enumerated; the enumeration of interleavings is at model level. Three clauses of the statement are read both ways (path-length counting of self-issued certificates, the root's own path-length limit, roots without usable issuer) - see design_notes/C11.md.",
 }
 
-QUICK_NAMES = ["chain3", "selfx", "cross", "pathlen", "dangling"]
+QUICK_NAMES = ["chain3", "selfx", "cross", "pathlen", "dangling", "nonca4"]
 THOROUGH_NAMES = gl.SMALL + gl.FIVE + gl.SIX
 
 
@@ -51,18 +51,24 @@ def run(ctx):
     r = ctx.tlc("WalkGen", "Walk_gen.cfg", workers=1, timeout=3000,
                 subst={"NAMES": gl.tla_set(names), "LINES": gl.tla_set(["line11"] if quick else gl.LINES),
                        "MAXROOTS": 2 if quick else 3},
-                label="WalkGen: cases + fixed walk refines Walk")
-    if "FIXED-MODEL-FAILS" in r.out:
-        ctx.note("design-level: the walk model with the proposed fix leaves the A layer on some case")
+                label="WalkGen: cases + coded walk refines Walk")
     cases = read_ndjson(ctx.specfile("walk_cases.ndjson"))
     if not cases:
         raise Machinery("WalkGen produced no cases")
-    pred = {}
+    pred, old = {}, {}
     for c in cases:
         for w in c["pred"]:
             pred[w] = pred.get(w, 0) + 1
-    ctx.note("B model of the walk as coded predicts deviations from the A layer on %d of %d cases: %s"
-             % (sum(1 for c in cases if c["pred"]), len(cases), json.dumps(pred, sort_keys=True)))
+        for w in c["old"]:
+            old[w] = old.get(w, 0) + 1
+    if pred:
+        ctx.note("design-level: the B model of the walk as coded leaves the A layer on %d of %d cases: %s (a prediction; "
+                 "the verdict comes only from the real code)" % (sum(1 for c in cases if c["pred"]), len(cases),
+                                                                 json.dumps(pred, sort_keys=True)))
+    else:
+        ctx.note("B model of the walk as coded (WalkDfs.DfsCoded) satisfies the A layer on all %d cases; the pre-fix "
+                 "model (DfsPreFix) deviates on %d: %s" % (len(cases), sum(1 for c in cases if c["old"]),
+                                                         json.dumps(old, sort_keys=True)))
 
     binary = ctx.gobuild("c11")
     catalog = ctx.specfile("graph_catalog.ndjson")
@@ -78,8 +84,8 @@ def run(ctx):
         cands += cc
     else:
         _, st = ctx.harness_output(p)
-        if st.get("cases", 0) != len(cases) or st.get("walks", 0) == 0 or st.get("chains", 0) == 0:
-            raise Machinery("harness ran %s of %d cases, %s chains" % (st.get("cases"), len(cases), st.get("chains")))
+        if st.get("cases", 0) != len(cases) or st.get("walks", 0) == 0:
+            raise Machinery("harness ran %s of %d cases, %s walks" % (st.get("cases"), len(cases), st.get("walks")))
         recs = read_ndjson(out)
 
     # ---- U3: random PKIs --------------------------------------------------------------------
@@ -96,12 +102,21 @@ def run(ctx):
 
     allrecs = recs + rnd
     rej = []
+    vacuous = None
     if allrecs:
         rej = gl.judge(ctx, "Trace_Walk", "Walk_judge.cfg", "walk_obs.ndjson", allrecs,
                        label="Trace_Walk judges %d enumerated + %d random observations" % (len(recs), len(rnd)))
     elif not cands:
         raise Machinery("no observations")
-    opened = 0
+    if allrecs:
+        need = {"required-path", "two-required-paths", "no-path", "synthesised-start-with-path", "path-of-max-length",
+                "path-of-4"}
+        if ctx.last_cover is None or not need <= ctx.last_cover:
+            vacuous = "vacuous: coverage tags never reached: %s" % sorted(need - (ctx.last_cover or set()))
+        ctx.cov["cover_tags"] = sorted(ctx.last_cover or [])
+        if ctx.last_open:
+            ctx.note("%d accepted observations on which the walk omits paths that only the lenient reading permits "
+                     "(root without usable issuer / root's own path length / self-issued counting)" % ctx.last_open)
     drift = 0
     why_by_index = {}
     for i, why, d in rej:
@@ -137,8 +152,11 @@ def run(ctx):
                                                                      json.dumps(rec["obs"]["chains"]), ",".join(why)),
                       "case": rec["case"]})
     ctx.candidates(binary, cands, reproduce=lambda path, body: reproduce(ctx, binary, path, body))
+    # a vacuous run is a machinery problem - but never instead of a reproduced violation
+    if vacuous and not ctx.violations:
+        ctx.problem(vacuous)
 
-    if not quick:
+    if not quick and recs:
         selftest(ctx, recs)
 
 
@@ -170,10 +188,17 @@ def selftest(ctx, recs):
     d["obs"]["chains"].append(d["obs"]["chains"][0][:-1])        # chain that does not end at a root
     rej = gl.judge(ctx, "Trace_Walk", "Walk_judge.cfg", "walk_obs.ndjson", [a, b, c, d, base], label="Trace_Walk self-test")
     got = sorted(i for i, _, _ in rej)
-    want = [0, 1, 2, 3] if len(base["obs"]["chains"][0]) > 1 else [0, 1, 2]
+    want = [0, 1, 2, 3]
     if got != want:
         raise Machinery("selftest: rejected %s, expected %s" % (got, want))
     ctx.note("binding self-test passed (missing chain, duplicate, unclosed channel, non-root-terminated chain rejected)")
+    # the known-finding matcher must not swallow neighbouring violations
+    from vlib import load_known, match_known
+    kf = load_known("C11")
+    for why in (["extra:revisit"], ["extra:revisit-adjacent-self-signed", "missing-chain"],
+                ["extra:revisit-adjacent-self-signed", "extra:through-root"], ["duplicate-chain"]):
+        if match_known(kf, {"sig": {"kind": "walk-rejected", "why": why}}) is not None:
+            raise Machinery("selftest: known-finding matcher is too broad, it matches %s" % why)
 
 
 def replay(ctx, path):
